@@ -92,8 +92,10 @@ func C11(p *core.Program, r *core.Report) {
 			partial := false
 			for _, c := range pr.State.Taken {
 				if b, ok := c.V.(*ssa.BinOp); ok && b.Op == token.EQL && c.True {
-					if ex, ok := b.X.(*ssa.Extract); ok && ex.Tuple == ssa.Value(readFull) && ex.Index == 1 {
-						partial = true // rErr == io.ErrUnexpectedEOF
+					for _, side := range []ssa.Value{b.X, b.Y} {
+						if ex, ok := side.(*ssa.Extract); ok && ex.Tuple == ssa.Value(readFull) && ex.Index == 1 {
+							partial = true // rErr == io.ErrUnexpectedEOF (either operand order)
+						}
 					}
 				}
 			}
